@@ -124,6 +124,7 @@ type execResult struct {
 	bubble  string
 	tapeRec []uint32
 	failed  int // driver calls that returned an error to the engine
+	probes  map[string]int
 }
 
 func buildStore(ctx context.Context, gs []GraphData) storage.Store {
@@ -176,7 +177,7 @@ func execStatement(t *testing.T, gs []GraphData, text string, k ExecKnobs, fault
 		})
 	})
 	if ss != nil {
-		er.trace, er.fired, er.failed = ss.trace, ss.fired, ss.failed
+		er.trace, er.fired, er.failed, er.probes = ss.trace, ss.fired, ss.failed, ss.probes
 	}
 	er.tapeRec = tape.Rec
 	if p := os.Getenv("BW_DUMPLOG"); p != "" && er.res != nil {
@@ -302,6 +303,12 @@ func (h *faultHarness) Run(t *testing.T, ci any) *Outcome {
 		for k, n := range er.fired {
 			o.stat("fault_"+k, int64(n))
 			fired += n
+		}
+		for k, n := range er.probes {
+			o.stat("probe_"+k, int64(n))
+		}
+		if er.err != nil && er.res.MaxRunnable >= 3 {
+			o.stat("probe_failed_statement_had_3_or_more_runnable_tasks", 1)
 		}
 		if len(er.fired) == 0 {
 			o.stat("fault_planned_not_reached", 1)
